@@ -11,6 +11,8 @@ func init() {
 		"an export made after Shutdown is only required not to block (the six exporters document different results); Shutdown before Start on the trace exporters is a no-op after which the exporter behaves like a fresh one",
 		"a partial-success message with a rejected count > 0 is a rejection that has to be reported whether or not an error_message explains it; a message with neither count nor text requires no report",
 		"once the export context has ended Export must be back within 10 s (hard) / 2 s (three quiet runs); an export abandoned as blocked leaves its goroutine behind, the run continues",
+		"an exporter timeout of 0 or a negative one (option or *_TIMEOUT variable) means no timeout; integer milliseconds in the variables may be zero-padded or carry a sign; the signal-specific variable wins over the general one, the option over both (as documented)",
+		"a partial-success error_message / failure body / failure status message of up to 1 MiB is something a collector may legitimately send (below gRPC's 4 MiB default receive limit and upstream's 4 MiB HTTP response bound)",
 		"the open Retry-After unit finding explains only a wait that is shorter than N seconds but not shorter than N nanoseconds; a shorter wait, or a re-send where even the nanosecond reading exceeds MaxElapsedTime, is a violation",
 	))
 }
